@@ -66,11 +66,20 @@ def _first_diff(c):
     for i in range(n):
         s = spec[i] if i < len(spec) else "-"
         m = model[i] if i < len(model) else None
+        if s == "?":
+            # the history has left the property's domain (a region reaching beyond 2^64): what falcon does from here on
+            # (wrap, panic, accept) is not fixed by the property, and a rewrite that changes it must not raise an alarm
+            break
         if req[i] == "sections" and _overlap(impl[i]):
             return (i, "violation")
         if s not in ("-", "?") and impl[i] != s:
             return (i, "violation")
-        if m is not None and impl[i] != m and broken is None:
+        if s not in ("-", "?") and impl[i] == s:
+            # falcon does what the specification says on this operation: nothing is broken by the model saying otherwise
+            # (it can only do so where it mirrors a listed defect, e.g. the overflow at a region ending at 2^64, and a
+            # change that repairs the defect must not raise an alarm)
+            pass
+        elif m is not None and impl[i] != m and broken is None:
             broken = (i, "broken")
         if impl[i] == "panic" and req[i].startswith("set "):
             break           # the rest is `skipped` on both sides
